@@ -69,7 +69,7 @@ def sweep_cases(tier):
                     continue
                 if ck["kind"] in ("chi2_pointwise", "gauss_pointwise", "nll_gaussian", "nllr_gaussian") and any(not _diag(s) for s in mix):
                     continue   # pointwise identifiers are documented for uncorrelated uncertainties only
-                for cons in ([], ["c1"], ["c2", "c3"]):
+                for cons in ([], ["c1"], ["c2", "c3"], ["c4"]):
                     cases.append(dict(ftype=ftype, cost=cid, srcs=mix, disabled=[], cons=cons, steps=[]))
                 if len(mix) >= 2:
                     cases.append(dict(ftype=ftype, cost=cid, srcs=mix, disabled=[mix[0]], cons=["c1"], steps=[]))
@@ -101,7 +101,7 @@ def run(tier, seed, faults=()):
             rep.violation("TLC: %s violated in FitCache.tla on the exported %s graph" % (mc["violated"], ftype), "", dict(tlc_trace=mc.get("trace")))
             return rep
         depth, cap = (4, 2500) if tier == "quick" else (5, 40000)
-        c = fg.cfg_constants(g, "nonlinear", depth, max_sources=3, off=COST_OFF, faults=faults, obs_filter=("cost",))
+        c = fg.cfg_constants(g, "nonlinear", depth, max_sources=3, off=COST_OFF, faults=faults, obs_filter=("cost",), cons=("c1", "c2", "c3", "c4"))
         cm.run_replay_stage(rep, "GenFCRun", cm.gen_cfg(c), replay_walk, "%s: %d steps (sources in every order, constraints, points, data, fit; cost reads)" % (ftype, depth),
                             extra_files=mod, max_histories=cap, seed=seed, chunk=50)
         c = fg.cfg_constants(g, "nonlinear", 10, max_sources=3, off=("rejects",), faults=faults, obs_filter=("cost", "total_cov", "gof"))
